@@ -31,6 +31,17 @@ theorem C15_termOf_is_literal (dq : DQ) (v : GoVal) (t : Term) (hw : GoVal.wf v 
   obtain ⟨toks, htoks⟩ := hl
   exact ⟨toks, htoks, fun fuel hf rest args hfo => read_literal dq v t toks hw ht htoks fuel hf rest args hfo⟩
 
+/-- **C15_placeholder_equals_literal**: the query `f(?)` with the Go value `v` as argument and the query
+    `f(<literal denoting v>)` without placeholders are read as the same term `f(termOf v)` — for every
+    value, functor and `double_quotes` setting (the context the stream c15.args drives on the real code). -/
+theorem C15_placeholder_equals_literal (dq : DQ) (f : String) (v : GoVal) (t : Term)
+    (hw : GoVal.wf v = true) (ht : termOf dq v = .ok t) :
+    ∃ toks, litToks v = some toks ∧
+      query dq [.name f, .openCT, .name "?", .close, .end_] [v] = .ok (.app f (.cons t .nil)) ∧
+      parseTop ⟨dq, none⟩ ([.name f, .openCT] ++ toks ++ [.close, .end_]) [] = .ok (.app f (.cons t .nil)) := by
+  obtain ⟨toks, hl⟩ := litToks_of_termOf dq v t ht
+  exact ⟨toks, hl, query_arg dq f v t ht, parse_literal_arg dq f v t toks hw ht hl⟩
+
 /-- `termOf` never builds syntax from the characters of a string: the result is the atom with exactly that
     text, or the list of its characters / character codes — by definition, for every string and flag. -/
 theorem C15_string_is_data (dq : DQ) (s : String) :
@@ -63,23 +74,14 @@ theorem C15_query_template (dq : DQ) (toks : List Tok) (vals : List GoVal) (ts :
   simp only [query, h]
   exact parseTop_template _ toks ts
 
-/-- **C15_placeholder_count**: if a text parses with some arguments, then it is an error to pass any other
-    number of arguments — "too many arguments for placeholders" when more are passed. -/
+/-- **C15_placeholder_count**: if a text parses with some arguments, then passing any other number of
+    arguments is an error: fewer — "not enough arguments for placeholders"; more — "too many arguments
+    for placeholders".  (So the number of arguments a text accepts is unique: its number of placeholders.) -/
 theorem C15_placeholder_count (cfg : Cfg) (toks : List Tok) (args args' : List Term) (t : Term)
-    (h : parseTop cfg toks args = .ok t) (hne : args'.length ≠ args.length) :
-    ∃ e, parseTop cfg toks args' = .error e ∧ (args.length < args'.length → e = .manyArgs) := by
-  cases h' : parseTop cfg toks args' with
-  | ok t' => exact absurd (parseTop_count_unique cfg toks args args' t t' h h').symm hne
-  | error e =>
-    refine ⟨e, rfl, fun hl => ?_⟩
-    rw [parseTop_longer cfg toks args args' t h hl] at h'
-    simpa using h'.symm
-
-/-- the missing half, not proved: with FEWER arguments the error is specifically
-    "not enough arguments for placeholders" (C15_placeholder_count shows that it is an error) -/
-def C15_placeholder_count_few_statement : Prop :=
-  ∀ (cfg : Cfg) (toks : List Tok) (args args' : List Term) (t : Term),
-    parseTop cfg toks args = .ok t → args'.length < args.length → parseTop cfg toks args' = .error .fewArgs
+    (h : parseTop cfg toks args = .ok t) :
+    (args'.length < args.length → parseTop cfg toks args' = .error .fewArgs) ∧
+    (args.length < args'.length → parseTop cfg toks args' = .error .manyArgs) :=
+  ⟨parseTop_shorter cfg toks args args' t h, parseTop_longer cfg toks args args' t h⟩
 
 /-- a value `termOf` cannot convert (unsigned integers, bool, maps, structs, nil …) is rejected before
     parsing starts — it never turns into something else -/
